@@ -131,9 +131,32 @@ def impl(case):
             except Exception as e:
                 ans = {"err": C.exc_enum(e)}
             after = [None if s.transform is None else s.transform.parameters.tolist() for s in w.pipeline]
+            # the same with a bounding box on the original: the derived WCS must mask exactly where the original does
+            try:
+                wb, _ = _build_wcs(case)
+                nin = wb.forward_transform.n_inputs
+                wb.bounding_box = tuple((-50.0, 50.0) for _ in range(nin)) if nin > 1 else (-50.0, 50.0)
+                fixed = {int(k): float(G.fr(v)) for k, v in q["fixed"]}
+                nb = wb.fix_inputs(dict(fixed))
+                free = [i for i in range(nin) if i not in fixed]
+                box_cmp = []
+                for base in (7.0, 1000.0):            # a point inside the box and one outside it on the free axes
+                    pt = [base + 3 * j for j in range(len(free))]
+                    full = [0.0] * nin
+                    for i, v in fixed.items():
+                        full[i] = v
+                    for i, v in zip(free, pt):
+                        full[i] = v
+                    a = nb(*pt)
+                    b = wb(*full)
+                    na = len(a) if isinstance(a, tuple) else 1
+                    box_cmp.append([G.canon_vals(a, na), G.canon_vals(b, na)])
+                box_res = {"box": box_cmp}
+            except Exception as e:
+                box_res = {"box_err": C.exc_enum(e) + ":" + str(e)[:80]}
             answers.append(ans)
-            extra.append({"orig_unchanged": before == after and list(w.available_frames) == snap_names,
-                          "orig_nin": w.forward_transform.n_inputs})
+            extra.append(dict({"orig_unchanged": before == after and list(w.available_frames) == snap_names,
+                               "orig_nin": w.forward_transform.n_inputs}, **box_res))
     # independent hand composition of the step transforms, for the oracle
     hand = []
     steps = [s.transform for s in w.pipeline]
@@ -225,6 +248,9 @@ def oracle(case, res):
                 out.append(("fix", "fixed WCS gives %s, original with inputs held gives %s" % (ans["new"]["v"], hand)))
             if not ex["orig_unchanged"]:
                 out.append(("fix_pure", "fix_inputs changed the original WCS"))
+            for a, b in ex.get("box", []):
+                if a != b:
+                    out.append(("fix_box", "with a bounding box: fixed WCS gives %s, original with inputs held gives %s" % (a, b)))
     return out
 
 
